@@ -161,6 +161,43 @@ func (t *RxTable) Resolve(v ssa.Value) (*Pattern, string) {
 	return nil, fmt.Sprintf("pattern value %T is not a constant", v)
 }
 
+// ResolveAll resolves a pattern value to the set of source patterns it can be:
+// one for a constant, the union over all static call sites for a parameter of
+// a repository helper (a scan loop shared by several patterns). nil when any
+// origin is not a constant.
+func (c *Ctx) ResolveAll(v ssa.Value, fn *ssa.Function, depth int) []*Pattern {
+	if p, _ := c.Rx().Resolve(v); p != nil {
+		return []*Pattern{p}
+	}
+	par, ok := v.(*ssa.Parameter)
+	if !ok || depth > 2 {
+		return nil
+	}
+	idx := paramIndex(fn, par)
+	if idx < 0 {
+		return nil
+	}
+	var out []*Pattern
+	seen := map[string]bool{}
+	for _, e := range c.Graph().In[fn] {
+		cc := callCommon(e.Site)
+		if cc == nil || staticFn(cc) != fn || idx >= len(cc.Args) {
+			continue
+		}
+		ps := c.ResolveAll(cc.Args[idx], e.Caller, depth+1)
+		if ps == nil {
+			return nil
+		}
+		for _, p := range ps {
+			if !seen[p.Name+p.Src] {
+				seen[p.Name+p.Src] = true
+				out = append(out, p)
+			}
+		}
+	}
+	return out
+}
+
 // ByName finds a repository pattern global by "pkg.Var".
 func (t *RxTable) ByName(name string) *Pattern {
 	for _, p := range t.all {
